@@ -162,7 +162,7 @@ func c08pipeModel(c *Ctx, ruleMirror, ruleHop, ruleState string) {
 	type refDef struct {
 		label, text string
 		geographic  bool
-		unit, pm    poly // nil: not given
+		unit, pm    poly   // nil: not given
 		flip        bool   // axis order "wsu": both horizontal axes point the other way
 		axis        string // any other axis order ("neu", "nwu", "seu" …); "" with flip=false is "enu"
 	}
